@@ -83,7 +83,7 @@ fn main() {
         }
         "C13" => {
             let st = std::cell::RefCell::new(c13::E2eState { status: c11::start_status_task(&rig), cases: 0, last_stamp: String::new() });
-            let n = params.share(if th { 60_000 } else { 2_000 });
+            let n = params.share(if th { 24_000 } else { 2_000 });
             Drive { params: &params, stats: &mut stats, known: &known }.run("c13.e2e", 131, c13::e2e_strategy(), n, |c, s| c13::eval_e2e(&rig, &mut st.borrow_mut(), c, s));
             (c13::RULE_E2E.into(), e2e_assumptions)
         }
